@@ -3,7 +3,7 @@
    [Print Assumptions] beneath. *)
 From Coq Require Import ZArith List Bool.
 From PushModel Require Import Base.Sx Base.Machine Base.ListOps Model.Stack Spec.SeqSpec
-  Model.StackMachine Proofs.StackRefine Suites.SStack.
+  Model.StackMachine Proofs.StackRefine Suites.SStack Suites.SStackGen.
 Import ListNotations.
 Open Scope Z_scope.
 
@@ -46,6 +46,24 @@ Theorem C16_wf_b_sound :
   forall ops t, ops_wf_b t ops = true -> ops_wf Z.eqb Z.eqb t ops.
 Proof. exact ops_wf_b_sound. Qed.
 Print Assumptions C16_wf_b_sound.
+
+(* The same for the element-generic wire suite (instance: PushStack<Item>, suite
+   "stackitem"), and: inside the quantifier that suite prints exactly the run of
+   the plain-sequence specification, whatever the element codec. *)
+Theorem C16_wf_bg_sound :
+  forall (A : Type) (eqA streq : A -> A -> bool) (ops : list (op A)) (t : list A),
+    ops_wf_bg eqA streq t ops = true -> ops_wf eqA streq t ops.
+Proof. exact ops_wf_bg_sound. Qed.
+Print Assumptions C16_wf_bg_sound.
+
+Theorem C16_generic_suite_result_is_spec :
+  forall (A : Type) (sx_el : A -> sx) (sx_listing : list A -> sx) (eqA streq : A -> A -> bool)
+         (p : profile) (init : list A) (ops : list (op A)),
+    ops_wf_bg eqA streq (rev init) ops = true -> sizes_ok eqA streq (rev init) ops ->
+    run_g sx_el sx_listing eqA streq p init ops =
+    SL [SZ 0; sx_run_g sx_el sx_listing (spec_run eqA streq (rev init) ops)].
+Proof. exact suite_g_result_is_spec. Qed.
+Print Assumptions C16_generic_suite_result_is_spec.
 
 (* Non-vacuity: a concrete non-trivial history meets the hypotheses. *)
 Example C16_nonvacuous :
